@@ -107,4 +107,25 @@ theorem label_fields (e : Em) (n : String) :
   | none => refine Or.inr ⟨rfl, rfl, ?_, ?_, ?_, ?_, ?_, ?_⟩ <;> (simp only; split <;> rfl)
 
 
+/-- data blocks never touch the base or the dangling maps -/
+theorem emitBytes_static (e : Em) (b : List Nat) :
+    (emitBytes e b).1.base = e.base ∧ (emitBytes e b).1.dS8 = e.dS8 ∧ (emitBytes e b).1.dU16 = e.dU16 := by
+  unfold emitBytes
+  generalize he1 : (if e.genText = true then
+      { emitBase e with lines := (emitBase e).lines ++ dbLines (emitBase e).address b } else e) = e1
+  have hf : e1.base = e.base ∧ e1.dS8 = e.dS8 ∧ e1.dU16 = e.dU16 := by
+    subst he1; simp only [emitBase]; (repeat' split) <;> simp_all
+  simp only
+  cases hw : write e1 b with
+  | none => exact hf
+  | some e2 =>
+    rcases AsmLemmas.write_some e1 e2 b hw with ⟨_, rfl⟩ | ⟨_, _, _, rfl⟩ <;> exact hf
+
+theorem label_static (e : Em) (n : String) :
+    (label e n).1.base = e.base ∧ (label e n).1.dS8 = e.dS8 ∧ (label e n).1.dU16 = e.dU16 := by
+  unfold label
+  cases lookup e.labels n with
+  | some v => exact ⟨rfl, rfl, rfl⟩
+  | none => simp only; by_cases g : e.genText = true <;> simp [g]
+
 end AsmModel
